@@ -221,10 +221,12 @@ def run(res, f, tier):
                 flow_bad.append(("without comment lines neither a name nor a description may be offered", (sn, sd, bd)))
             continue
         E0, E1 = "elem0(%s)" % SRC, "elem1(%s)" % SRC
-        if sn != [("RuleBuilder::set_name", B, E0)]:
+        # the first item itself, or the first item passed through per-item adaptors (`.map(str::trim)`)
+        item0 = re.compile(r"^(?:[\w:]+\()*" + re.escape(E0) + r"\)*$")
+        if not (len(sn) == 1 and sn[0][:2] == ("RuleBuilder::set_name", B) and len(sn[0]) == 3 and item0.match(sn[0][2])):
             flow_bad.append(("the first comment line must be offered as the name (unconditionally)", sn))
             continue
-        cur = "RuleBuilder::set_name(%s, %s)" % (B, E0)
+        cur = "RuleBuilder::set_name(%s, %s)" % (B, sn[0][2])
         if not second:
             classes.add("name-only")
             if sd or bd != [("RuleBuilder::build", cur)]:
